@@ -409,9 +409,9 @@ func (w *world) apply(c *Case, idx int, o Op) string {
 	}
 	before := w.dump()
 	code, resp := w.post(name, raw)
-	if o.Action == "start" && code/100 == 2 {
+	if (o.Action == "start" || o.Action == "retry") && code/100 == 2 {
 		// StartAsync: wait for the spawned executable's record
-		deadline := time.Now().Add(5 * time.Second)
+		deadline := time.Now().Add(10 * time.Second * time.Duration(sim.LoadFactor()))
 		for time.Now().Before(deadline) {
 			b, _ := os.ReadFile(w.exeLog)
 			if len(exeRecords(string(b))) > len(exeRecords(before["exe"])) {
